@@ -24,7 +24,11 @@ RULE = (
     "SecondOrderTensor(1.3)}; one evaluation = (coupling key, affine basis field) for the "
     "divergence or (coupling key, constant pressure in {1,-2}) for the scalar gradient; "
     "non-trivial = coupling coefficient != 1 or grid not K-orthogonal, and (divergence) a "
-    "field with non-zero gradient; distinct by (grid, mu, lambda, key, field / pressure)"
+    "field with non-zero gradient; distinct by (grid, mu, lambda, key, field / pressure, eta, pass); "
+    "axes: documented scalar `mpsa_eta` in {default, 0, 0.25, 1/3} and uniform grid scale in "
+    "{1, 1e-3, 1e3} on one grid per family, where the discretization is also repeated on the SAME "
+    "grid and data dictionary and the second set of matrices is checked; grid, stiffness, "
+    "coupling tensor and bc arrays are digested before / after every discretize (purity)"
 )
 ASSUMPTIONS = [
     "all mechanical boundary faces Dirichlet with data u(x_f); constant isotropic stiffness",
@@ -32,12 +36,15 @@ ASSUMPTIONS = [
     "both coupling terms carry the coefficient: alpha*div(u)*|cell| and -alpha*p*n_f",
     "2-d grids lie in the xy-plane; 3-d node perturbations only on simplex grids",
     "tolerance 1e-10 * alpha * max|cell| * (|grad u| + |u|/h_min) for the divergence and "
-    "1e-10 * alpha * |p| * max|n_f| for the scalar gradient (measured floor 3e-16)",
+    "1e-10 * alpha * |p| * max|n_f| for the scalar gradient (measured floor 3e-16); all scales "
+    "are geometric, so tolerances are relative under grid scaling",
+    "Biot honours the documented scalar `mpsa_eta`; consistency must hold for every eta in [0,1)",
 ]
 BOUNDS = {
     "quick": "C(2,2), T(2,2) x 9 offsets of the interior node; C(3,2), T(3,2) @shear/@skew; "
     "Tet(1,1,1) x 7 offsets of a corner node; C(2,2,2) @id/@shear; Tet(2,1,1)@skew; "
-    "(mu,lambda) in {(1,1),(1,10),(3,0)}; inverter python, numba on 4 grids",
+    "(mu,lambda) in {(1,1),(1,10),(3,0)}; inverter python, numba on 4 grids; eta in {0,0.25,1/3} "
+    "and scale in {1e-3,1e3} with repeated discretize on C(2,2)~, T(2,2)~, Tet(1,1,1)~, C(2,2,2)@shear",
     "thorough": "quick + C(3,2), T(3,2) x 81 offset pairs; C(3,3), T(3,3) single offsets of "
     "each interior node; Tet(1,1,1) x 27 offsets; Tet(2,2,2) x 27 offsets of the interior "
     "node; C(2,2,2)@skew, C(3,2,2)@shear, Tet(2,2,1)@shear",
@@ -98,6 +105,19 @@ def cases(tier):
         {"kind": "cart", "n": [2, 2, 2], "map": "shear"},
     ]
     out += [{"grid": s, "mu": 1.0, "lam": 10.0, "inverter": "numba"} for s in numba_grids]
+    # eta / scale axes, each with a repeated discretization on the same grid and data dict
+    fam = [
+        {"kind": "cart", "n": [2, 2], "pert": [[4, [1, -1]]]},
+        {"kind": "tri", "n": [2, 2], "pert": [[4, [1, -1]]]},
+        {"kind": "tet", "n": [1, 1, 1], "pert": [[7, [1, -1, 1]]]},
+        {"kind": "cart", "n": [2, 2, 2], "map": "shear"},
+    ]
+    for sp in fam:
+        for mu, lam in MULAM if tier != "quick" else [(1.0, 10.0)]:
+            out += [{"grid": sp, "mu": mu, "lam": lam, "inverter": "python", "eta": e, "reuse": True}
+                    for e in (0.0, 0.25, 1.0 / 3.0)]
+        out += [{"grid": dict(sp, scale=sc), "mu": 1.0, "lam": 10.0, "inverter": "python", "reuse": True}
+                for sc in (1e-3, 1e3)]
     return out
 
 
@@ -109,7 +129,9 @@ def run_case(case) -> Outcome:
     g = G.build(spec)
     d, nf, nc = g.dim, g.num_faces, g.num_cells
     bf = G.boundary_faces(g)
-    xc, xf, nrm = g.cell_centers[:d], g.face_centers[:d], g.face_normals[:d]
+    xc, xf, nrm = g.cell_centers[:d].copy(), g.face_centers[:d].copy(), g.face_normals[:d].copy()
+    vol = g.cell_volumes.copy()
+    eta = case.get("eta", None)
     hmin = G.h_min(g)
     amax = float(np.linalg.norm(nrm, axis=0).max())
     vmax = float(g.cell_volumes.max())
@@ -117,16 +139,37 @@ def run_case(case) -> Outcome:
     korth = spec["kind"] == "cart" and not spec.get("pert") and spec.get("map", "id") == "id"
     plain = not spec.get("pert") and spec.get("map", "id") == "id"
     gcls = f"{d}d/{spec['kind']}" + ("" if plain else "*") + f"/{case['inverter']}"
-    base = {"grid": spec, "grid_name": gname, "mu": mu, "lam": lam, "inverter": case["inverter"]}
+    if eta is not None:
+        gcls += f"/eta={eta:.2f}"
+    if spec.get("scale", 1) != 1:
+        gcls += f"/x{spec['scale']:g}"
+    base = {"grid": spec, "grid_name": gname, "mu": mu, "lam": lam, "inverter": case["inverter"], "eta": eta}
 
     coupling = {"one": ALPHAS["one"], "frac": ALPHAS["frac"],
                 "iso": pp.SecondOrderTensor(ALPHAS["iso"] * np.ones(nc))}
     bc = pp.BoundaryConditionVectorial(g, bf, ["dir"] * bf.size)
     stiff = pp.FourthOrderTensor(mu * np.ones(nc), lam * np.ones(nc))
-    data = pp.initialize_data({}, KW, {"fourth_order_tensor": stiff, "bc": bc, "inverter": case["inverter"],
-                                        "scalar_vector_mappings": coupling})
+    prm = {"fourth_order_tensor": stiff, "bc": bc, "inverter": case["inverter"], "scalar_vector_mappings": coupling}
+    if eta is not None:
+        prm["mpsa_eta"] = eta
+    data = pp.initialize_data({}, KW, prm)
+    disc = pp.Biot(KW)
+    dig0 = G.digest(g, stiff, bc, coupling["iso"])
+    for npass in range(2 if case.get("reuse") else 1):
+        _one_pass(out, pp, disc, g, data, coupling, dig0, (stiff, bc), npass, base, gcls, gname, korth, case,
+                  d, nf, nc, bf, xc, xf, nrm, vol, hmin, amax, vmax, mu, lam, eta)
+    if not korth:
+        out.samples.append({"grid": gname, "mu": mu, "lam": lam, "alphas": ALPHAS, "pressures": PRESSURES,
+                            "fields": [f[0] for f in F.affine_vector_basis(d)]})
+    return out
+
+
+def _one_pass(out, pp, disc, g, data, coupling, dig0, args, npass, base, gcls, gname, korth, case,
+              d, nf, nc, bf, xc, xf, nrm, vol, hmin, amax, vmax, mu, lam, eta):
+    """One discretize on (g, data) followed by all evaluations; pass 2 reuses everything."""
+    tag = "" if npass == 0 else "/reuse"
+    base = dict(base, discretize_pass=npass + 1)
     try:
-        disc = pp.Biot(KW)
         disc.discretize(g, data)
         M = data[pp.DISCRETIZATION_MATRICES][KW]
         DU = M[disc.displacement_divergence_matrix_key]
@@ -135,9 +178,12 @@ def run_case(case) -> Outcome:
         mats = {k: (DU[k], BDU[k], SG[k]) for k in coupling}
     except Exception as e:
         out.violate("Biot.discretize raised / did not store the coupling matrices", error=repr(e), **base)
-        out.ev(f"{gcls}/exception")
-        return out
+        out.ev(f"{gcls}/exception{tag}")
+        return
 
+    if G.digest(g, args[0], args[1], coupling["iso"]) != dig0:
+        out.violate("Biot.discretize modified its grid / stiffness / coupling / boundary-condition arguments", **base)
+        out.ev(f"{gcls}/impure/VIOLATION")
     for key, alpha in ALPHAS.items():
         du, bdu, sg = mats[key]
         if du.shape != (nc, nc * d) or bdu.shape != (nc, nf * d) or sg.shape != (nf * d, nc):
@@ -150,12 +196,12 @@ def run_case(case) -> Outcome:
             bcv = np.zeros((d, nf))
             bcv[:, bf] = uf[:, bf]
             got = du @ uc.ravel("F") + bdu @ bcv.ravel("F")
-            exp = alpha * float(np.trace(Gm)) * g.cell_volumes
+            exp = alpha * float(np.trace(Gm)) * vol
             umax = float(max(1.0, np.abs(uc).max(), np.abs(uf).max()))
             tol = TOL * alpha * vmax * (float(np.abs(Gm).max()) + umax / hmin)
             trace = "div" if abs(np.trace(Gm)) > 0 else ("shear" if kind == "lin" else kind)
             nontrivial = kind != "transl" and (alpha != 1.0 or not korth)
-            k = (gname, mu, lam, key, label, case["inverter"]) if nontrivial else None
+            k = (gname, mu, lam, key, label, case["inverter"], eta, npass) if nontrivial else None
             err = np.abs(got - exp)
             if not np.all(np.isfinite(got)) or err.max() > tol:
                 c = int(np.nanargmax(err)) if np.all(np.isfinite(err)) else 0
@@ -163,14 +209,14 @@ def run_case(case) -> Outcome:
                     out.violate("displacement divergence differs from alpha*div(u)*|cell| for a linear field",
                                 key=key, alpha=alpha, field=label, a=a, grad=Gm, cell=c, observed=got[c],
                                 expected=exp[c], tol=tol, **base)
-                out.ev(f"{gcls}/{key}/divu/{trace}/VIOLATION", k)
+                out.ev(f"{gcls}/{key}/divu/{trace}{tag}/VIOLATION", k)
             else:
-                out.ev(f"{gcls}/{key}/divu/{trace}", k)
+                out.ev(f"{gcls}/{key}/divu/{trace}{tag}", k)
         for p in PRESSURES:
             got = (sg @ (p * np.ones(nc))).reshape((d, nf), order="F")
             exp = -alpha * p * nrm
             tol = TOL * alpha * abs(p) * amax
-            k = (gname, mu, lam, key, f"p={p}", case["inverter"]) if (alpha != 1.0 or not korth) else None
+            k = (gname, mu, lam, key, f"p={p}", case["inverter"], eta, npass) if (alpha != 1.0 or not korth) else None
             err = np.abs(got - exp)
             if not np.all(np.isfinite(got)) or err.max() > tol:
                 f = int(np.nanargmax(err.max(axis=0))) if np.all(np.isfinite(err)) else 0
@@ -178,13 +224,9 @@ def run_case(case) -> Outcome:
                     out.violate("scalar gradient of a constant pressure differs from -alpha*p*n_f",
                                 key=key, alpha=alpha, pressure=p, face=f, is_boundary=bool(f in set(bf.tolist())),
                                 observed=got[:, f], expected=exp[:, f], tol=tol, **base)
-                out.ev(f"{gcls}/{key}/gradp/VIOLATION", k)
+                out.ev(f"{gcls}/{key}/gradp{tag}/VIOLATION", k)
             else:
-                out.ev(f"{gcls}/{key}/gradp", k)
-    if not korth:
-        out.samples.append({"grid": gname, "mu": mu, "lam": lam, "alphas": ALPHAS, "pressures": PRESSURES,
-                            "fields": [f[0] for f in F.affine_vector_basis(d)]})
-    return out
+                out.ev(f"{gcls}/{key}/gradp{tag}", k)
 
 
 def known_finding(case, viol):
